@@ -90,6 +90,22 @@ func Run(r *ev.Run, replay string) {
 						b = neighbour(sg, a, rng)
 						r.Count("pairs_sharing_a_bound:"+sg.name, 1)
 					}
+					if (sg.name == "Default" || sg.name == "NPM") && rng.Intn(150) == 0 {
+						// Long sets: 17-40 disjoint alternatives (more spans than any
+						// small-set shortcut covers) against a wide range that canon
+						// does not merge with them (its lower bound is the synthetic
+						// minimum) or a prerelease-bounded one.
+						k := 17 + rng.Intn(24)
+						major := 1 + rng.Intn(3)
+						alts := make([]string, k)
+						for j := range alts {
+							alts[j] = fmt.Sprintf("%d.%d.x", major, 2*j)
+						}
+						rng.Shuffle(k, func(x, y int) { alts[x], alts[y] = alts[y], alts[x] })
+						a = strings.Join(alts, " || ")
+						b = gen.Pick(rng, fmt.Sprintf("<%d.0.0", major+1+rng.Intn(3)), fmt.Sprintf("<=%d.%d.0", major, rng.Intn(2*k)), fmt.Sprintf(">=%d.%d.0-rc <%d.%d.0", major, rng.Intn(k), major, k+rng.Intn(k)), fmt.Sprintf("%d.%d.x || %d.x", major, 2*rng.Intn(k)+1, major+1))
+						r.Count("long_set_pairs:"+sg.name, 1)
+					}
 					pair(r, sg, a, b, bg, rng)
 				}
 			}(sg, sh)
@@ -155,10 +171,17 @@ func pair(r *ev.Run, sg sysgen, a, b string, extra []string, rng *rand.Rand) {
 		}
 		r.Violation("C09:"+sg.name+":"+law, fmt.Sprintf("%s: A=%q B=%q: %s", sg.name, a, b, what), cc)
 	}
+	// The constraints whose sets were the receivers of the first union and
+	// intersection: Constraint.Set hands out the set by value, and operating on
+	// that value must leave the constraint itself matching as before.
+	var recvs []*semver.Constraint
 	op := func(x, y string, union bool) (semver.Set, error) {
 		cx, cy := parse(sg, x), parse(sg, y)
 		if cx == nil || cy == nil {
 			return semver.Set{}, fmt.Errorf("operand no longer parses")
+		}
+		if x == a && y == b {
+			recvs = append(recvs, cx)
 		}
 		s := cx.Set()
 		var err error
@@ -269,6 +292,11 @@ func pair(r *ev.Run, sg sysgen, a, b string, extra []string, rng *rand.Rand) {
 			if !done[law] {
 				done[law] = true
 				viol(law, what, vs)
+			}
+		}
+		for _, rc := range recvs {
+			if rc.Set().MatchVersion(v) != ma || rc.MatchVersionPrerelease(v) != pa {
+				rep("receiver-source-modified", fmt.Sprintf("v=%s: the constraint A, whose Set() value was the receiver of a Union/Intersect with B, now matches %v/%v (it matched %v/%v); it prints %s", vs, rc.Set().MatchVersion(v), rc.MatchVersionPrerelease(v), ma, pa, rc.Set().String()))
 			}
 		}
 		if revA != nil && sortedA.MatchVersionPrerelease(v) != revA.MatchVersionPrerelease(v) {
